@@ -334,6 +334,14 @@ func (c *CheckCtx) residualHolds(f Finding) bool {
 	return n > 0
 }
 
+// structural records a violation that has no input model (footprint / shape
+// findings); the replay file describes it.
+func (c *CheckCtx) structural(obl, detail string) {
+	rf := &ReplayFile{Dir: c.P.Dirs[0], Harness: "structural", Detail: detail, Failed: []string{obl}}
+	p, _ := writeReplay(rf, c.P.ID, obl)
+	c.Violations = append(c.Violations, Violation{obl, p, detail})
+}
+
 func lastLines(s string, n int) string {
 	ls := strings.Split(strings.TrimSpace(s), "\n")
 	if len(ls) > n {
